@@ -22,6 +22,7 @@ RULE = (
     "instance) and a free-running stress (8-16 threads released by a barrier onto fresh instances, switch interval 1e-6, overlap "
     "of first-use compile windows measured). Non-trivial = schedule in which B really executed library code while A held a "
     "frame inside the library; distinct by (scenario, calls, k1, k2)."
+    " Re-entry is also driven from a block rule (with two table-budget documents) and from an overridden validateLink, and the outer call is compared with the same plug-in not re-entering."
 )
 ASSUMPTIONS = [
     "process-wide first-use caches of the dependency mdurl (and re's pattern cache) are warmed before schedules start: a race inside mdurl is not this repository's",
